@@ -74,6 +74,7 @@ pub fn rule(prop: &str) -> String {
         "C04" => "hostile broker inside conformant workloads + systematic truncation / wrong-phase / fault-offset sweeps; non-trivial = hostile bytes were consumed or a transport fault fired; distinct = (hostile inputs' lengths and offsets, phase, faults seen, wire length)".into(),
         "C01" => "random option subsets with boundary values through the public API, 1-8 requests per run from 1-3 handles, partial/pending writes; non-trivial = a client packet on the wire; distinct = (packet type, set of property ids present incl. will, flag/QoS/filter-count bits, size class by remaining-length width)".into(),
         "C02" => "reference-encoded server packets with random legal property subsets in shuffled order, short forms, boundary lengths, chunked reads; non-trivial = packet consumed by the client; distinct = (packet type, property id sequence, reason/QoS/size bits, short form, size class)".into(),
+        "C17" => "QoS 1/2 publish histories, connection cut (EOF / read error at a packet boundary or inside an acknowledgement, secondary: write error) after a random prefix and, systematically, after every prefix of seeded base histories; session expiry in {absent,0,30,3600,100000,never} from CONNECT and/or CONNACK; offline time well before / well after the expiry; reconnect, CONNACK, acknowledgements on the new connection; non-trivial = QoS>0 publishes existed on the old connection; distinct = (re-sent publishes, re-sent PUBRELs, old publishes, offline time, inbound count)".into(),
         "C10" => "conformant-ops with Receive Maximum in {1..12, absent}, bursts, all reason codes, then a quiescent probe submitting free+1 publishes; non-trivial = a publish was attempted with the window full or a failing completion occurred; distinct = (R, history of completion kinds, refusals)".into(),
         "C13" => "termination profile: every terminating cause at random session states; non-trivial = cause fired while state was non-idle; distinct = (cause, DISCONNECT reason, session state class)".into(),
         _ => "see DESIGN.md".into(),
@@ -83,6 +84,7 @@ pub fn rule(prop: &str) -> String {
 pub fn systematic(prop: &str, tier: Tier, seed: u64) -> Vec<Case> {
     match prop {
         "C04" => crate::hostile::systematic(tier == Tier::Thorough, seed),
+        "C17" => crate::profiles::systematic_resume(tier == Tier::Thorough, seed),
         "C03" => crate::profiles::systematic_framing(tier == Tier::Thorough),
         _ => Vec::new(),
     }
@@ -166,6 +168,7 @@ pub fn generate(prop: &str, _tier: Tier, rng: &mut Rng, _idx: u64) -> Case {
         "C03" => crate::profiles::framing(rng),
         "C04" => crate::hostile::hostile_case(rng),
         "C16" => crate::profiles::wake_base(rng),
+        "C17" => crate::profiles::resume(rng),
         "C11" => {
             // every 400th run is a long history across the real wrap
             if _idx % 400 == 0 {
@@ -441,6 +444,18 @@ pub fn judge(prop: &str, sc: &Scenario, aux: Option<&Scenario>) -> Judged {
                             j.nontrivial.push(fnv_of(&(o.spec.kind_name(), d.clamp(-2, 2), m.min(70_000), l.min(70_000))));
                         }
                     }
+                }
+            }
+        }
+        "C17" => {
+            viols.extend(oracle::c17(&a, sc));
+            if a.conns.len() >= 2 && a.conns[1].run_started.is_some() {
+                let unfinished = a.wire.iter().filter(|w| w.conn == 1 && matches!(&w.pkt, Packet::Publish(p) if p.dup) ).count();
+                let pubrels = a.wire.iter().filter(|w| w.conn == 1 && matches!(w.pkt, Packet::Pubrel(_))).count();
+                let old_pubs = a.wire.iter().filter(|w| w.conn == 0 && matches!(&w.pkt, Packet::Publish(p) if p.qos > 0)).count();
+                let elapsed = sc.steps.iter().find_map(|s| if let Step::Reconnect { elapsed, .. } = s { Some(*elapsed) } else { None });
+                if old_pubs > 0 {
+                    j.nontrivial.push(fnv_of(&(unfinished, pubrels, old_pubs, elapsed.map(|e| e.min(200_000)), a.inbound.iter().filter(|i| i.p.conn == 0).count())));
                 }
             }
         }
